@@ -187,9 +187,7 @@ fn handle_put<R: Read, W: Write>(
             },
             Cas::Conflict => {
                 // Never overwrite on a stale CAS — land a conflict-copy.
-                let mut cn = dst.as_os_str().to_owned();
-                cn.push(format!(".conflict-{}", super::wire::short_hash(&hash)));
-                match std::fs::rename(&tmp, PathBuf::from(cn)) {
+                match keep_conflict_copy(&tmp, &dst, &hash) {
                     Ok(()) => Response::PutResult {
                         committed: false,
                         current,
@@ -203,6 +201,40 @@ fn handle_put<R: Read, W: Write>(
         }
     })?;
     write_frame(w, &resp)
+}
+
+/// Publish the staged upload next to `dst` as `<dst>.conflict-<hash12>`. That name is
+/// an ordinary hub path: when it already holds OTHER content (someone committed to it),
+/// the copy goes to `…-2`, `…-3`, … instead of replacing it. `hard_link` never replaces
+/// an existing file, so nothing is overwritten and no partial file is ever visible.
+/// Called with the commit lock held.
+fn keep_conflict_copy(tmp: &Path, dst: &Path, hash: &Hash) -> std::io::Result<()> {
+    let mut base = dst.as_os_str().to_owned();
+    base.push(format!(".conflict-{}", super::wire::short_hash(hash)));
+    for n in 1..=9999u32 {
+        let mut name = base.clone();
+        if n > 1 {
+            name.push(format!("-{n}"));
+        }
+        let cand = PathBuf::from(name);
+        match std::fs::hard_link(tmp, &cand) {
+            Ok(()) => {
+                let _ = std::fs::remove_file(tmp);
+                return Ok(());
+            }
+            Err(e) if e.kind() == std::io::ErrorKind::AlreadyExists => {
+                if current_hash(&cand) == Some(*hash) {
+                    // the same bytes are already kept under this name
+                    let _ = std::fs::remove_file(tmp);
+                    return Ok(());
+                }
+            }
+            // no hard links on this file system: the name is free, rename is as good
+            Err(_) if !cand.exists() => return std::fs::rename(tmp, &cand),
+            Err(e) => return Err(e),
+        }
+    }
+    Err(std::io::Error::other("no free conflict-copy name"))
 }
 
 fn handle_delete<W: Write>(
